@@ -34,5 +34,18 @@ def obligations(tier):
                      typed_calloc=True, flags=['--max-field-sensitivity-array-size', '1024'],
                      desc='level-2 reduction of 6 symbolic level-1 entries (%s summaries): min of minima, max of maxima, NaN handling, index/timestamps' % ('64-bit' if t in ('f64', 'i32') else '32-bit'),
                      bound='2 level-2 entries x 3 level-1 entries, all float bit patterns'))
+    for t in (['f32'] if tier == 'quick' else ['f32', 'f64', 'u8']):
+        sdf = 4
+        o.append(Obl('L1_two_blocks_%s' % t, 'c02_summary.c', units=['wr_fsr.c', 'datatype.c'], stubs=['log_stub.c', 'fp_stub.c'], defines=HOOKS + TYPES[t] + ['MODE_L1=1', 'TWO_CALLS=1', 'SDF=%d' % sdf, 'NE=2'],
+                     unwind=2 * sdf + 4, timeout=to, backend=PORTFOLIO, unwind_text=[('harness', r'i \* 37 \+ 11', 2 * sdf * 8 + 2), ('harness', r'SYM_BYTES|grid_idx', 2 * sdf * 8 + 2), ('jls_core_fsr_summary1', r'idx < summaries_per', 4),
+                                  ('jls_core_fsr_summary1', r'sample < self->parent->signal_def.sample_decimate_factor', sdf + 2), ('harness', r'i < SDF', sdf + 2)],
+                     typed_calloc=True, flags=['--max-field-sensitivity-array-size', '1024'],
+                     desc='two blocks reduced into one level-1 chunk (%s): entry/index counts, index order, the chunk keeps the first block\'s sample id; after the level is written out and emptied the next chunk carries its own first sample id' % t,
+                     assumes=['the write-out of a full level is emulated by what wr_summary does to the level (both entry counts = 0)'], bound='3 blocks of 2 entries x %d samples (fixed sample values), symbolic sample ids and chunk positions (second later than first)' % sdf))
+        o.append(Obl('LN_two_chunks_%s' % t, 'c02_summary.c', units=['wr_fsr.c', 'datatype.c'], stubs=['log_stub.c', 'fp_stub.c'], defines=HOOKS + TYPES[t] + ['MODE_LN=1', 'TWO_CALLS=1', 'SUMDF=3', 'NE=2'],
+                     unwind=10, timeout=to, backend=PORTFOLIO, unwind_text=[('harness', r'i < NE \* SUMDF \* JLS_SUMMARY_FSR_COUNT', 27), ('jls_core_fsr_summaryN', r'SUMMARYN_BODY_TEMPLATE', 5), ('harness', r'i < SUMDF', 5)],
+                     typed_calloc=True, flags=['--max-field-sensitivity-array-size', '1024'],
+                     desc='two level-1 chunks reduced into one level-2 chunk (%s): entry/index counts, index order, the level-2 chunk keeps the first source chunk\'s sample id; after the level is written out and emptied the next chunk carries its own' % t,
+                     assumes=['the write-out of a full level is emulated by what wr_summary does to the level (both entry counts = 0)'], bound='3 source chunks of 6 entries, symbolic sample ids (second later than first)'))
     # L1 mean/std bit-equality on an 8-value grid (GRID mode of the harness): no verdict in 960 s on any back end -> not claimed
     return o
